@@ -18,6 +18,9 @@ MUT = {
  "hbt5": ("C16", "spine/heartbeat_manager.go", "		case <-stopC:\n			return", "		case <-stopC:\n			stopC = nil", "the stream ignores the stop"),
  "hbt6": ("C16", "spine/heartbeat_manager.go", "	// stop an already running heartbeat\n	c.StopHeartbeat()\n", "	// stop an already running heartbeat\n", "restart does not stop the old stream"),
  "hbt7": ("C16", "spine/heartbeat_manager.go", "			heartbeatData := c.heartbeatData(time.Now().UTC(), c.heartBeatCounter())\n\n			c.mux.Lock()", "			heartbeatData := c.heartbeatData(time.Now().UTC().Add(-time.Hour), c.heartBeatCounter())\n\n			c.mux.Lock()", "stale timestamp in the refresh"),
+ "hbt9": ("C16", "spine/device_local.go", "func (r *DeviceLocal) RemoveEntity(entity api.EntityLocalInterface) {\n", "func (r *DeviceLocal) RemoveEntity(entity api.EntityLocalInterface) {\n	// nothing to clean up or to announce for an entity that is not part of this device\n	r.mux.Lock()\n	known := false\n	for _, e := range r.entities {\n		if e == entity {\n			known = true\n		}\n	}\n	r.mux.Unlock()\n	if !known {\n		return\n	}\n\n", "RemoveEntity returns early for an entity the device does not list (heartbeat keeps running)"),
+ "hbt10": ("C16", "spine/heartbeat_manager.go", "		case <-stopC:\n			return", "		case <-c.stopHeartbeatC:\n			_ = stopC\n			return", "the stream selects on the manager's field instead of its own stop channel"),
+ "apr8": ("C12", "spine/feature_local.go", "		delete(r.pendingWriteApprovals[ski], *msg.RequestHeader.MsgCounter)\n		r.muxResponseCB.Unlock()\n\n		err := model.NewErrorTypeFromString(\"write not approved in time by application\")", "		delete(r.pendingWriteApprovals[ski], *msg.RequestHeader.MsgCounter)\n		r.muxResponseCB.Unlock()\n		r.muxWriteReceived.Lock()\n		delete(r.writeApprovalReceived, ski)\n		r.muxWriteReceived.Unlock()\n\n		err := model.NewErrorTypeFromString(\"write not approved in time by application\")", "the timeout of one write deletes the approval tallies of all pending writes of the peer"),
  "hbt8": ("C16", "spine/heartbeat_manager.go", "		close(c.stopHeartbeatC)\n	}\n}", "		close(c.stopHeartbeatC)\n		c.stopHeartbeatC = nil\n	}\n}", "stop forgets the channel (harmless variant: must NOT be flagged except through the model)"),
 }
 ENV = dict(os.environ, GOFLAGS="-mod=mod", GOPROXY="off", GOSUMDB="off", GOTOOLCHAIN="local")
@@ -35,7 +38,7 @@ def run(name, tier="quick", base="HEAD"):
     b1 = sh("go build ./... && go build -tags verif ./...", cwd=d)
     if b1.returncode != 0:
         print(name, "DOES NOT BUILD", b1.stdout[-500:]); sh("git -C /repo worktree remove --force %s" % d); return
-    c = subprocess.run("./check %s %s" % (pid, tier), shell=True, cwd="/root/scratch/w-timers", stdout=subprocess.PIPE, stderr=subprocess.STDOUT, text=True, env=dict(ENV, VERIF_REPO=d), timeout=1500)
+    c = subprocess.run("./check %s %s" % (pid, tier), shell=True, cwd=os.path.dirname(os.path.dirname(os.path.abspath(__file__))), stdout=subprocess.PIPE, stderr=subprocess.STDOUT, text=True, env=dict(ENV, VERIF_REPO=d), timeout=1500)
     viol = [l for l in c.stdout.splitlines() if l.startswith("VIOLATION") or l.startswith("  spec failure") or l.startswith("  correspondence") or l.startswith("  harness") or l.startswith("MACHINERY")]
     last = c.stdout.strip().splitlines()[-1] if c.stdout.strip() else ""
     print("=== %s [%s] %s\n    rc=%d %s" % (name, pid, what, c.returncode, last))
